@@ -151,6 +151,15 @@ def gen_tree(rng, tpl, regular=True):
         if okp:
             t[full] = bytes(rng.randrange(32, 127) for _ in range(rng.choice([0, 5, 40])))
             tags.add("extra-file")
+    # extra files right next to factory files, named after them: what an interrupted "write to a temporary file, then
+    # rename" or an editor leaves behind (`x.toml.tmp`, `x.toml~`, `.x.toml.swp`)
+    ffiles = [p for p, c in tpl if c is not None and under(FACTORY, p)]
+    for p in rng.sample(ffiles, min(len(ffiles), rng.choice([0, 0, 1, 2]))):
+        d, b = os.path.split(p)
+        sib = rng.choice([p + ".tmp", p + "~", p + ".bak", p + ".new", d + "/." + b + ".swp", p + ".tmp"])
+        if d in t and t[d] is None and sib not in t:
+            t[sib] = bytes(rng.randrange(32, 127) for _ in range(rng.choice([0, 7, 60])))
+            tags.add("extra-file-next-to-factory-file")
     if rng.random() < 0.1:
         t[CONFIG + "/user/emptydir"] = None
         t.setdefault(CONFIG + "/user", None)
